@@ -147,6 +147,26 @@ def scenario(mode, selected, cut, ending):
         if not selected and mode == "active":
             recv_frames(sock, 1, 1.0)     # swallow the Select.req
         stream = H.frame(0, 0x0101, 1, 1, True, b"") + H.frame(0, 0x0102, 1, 13, True, b"\x01\x00") + H.frame(5, 0x0103, session=0xFFFF)
+        if ending == "peer-stops-reading":
+            # the peer stops sending (at this byte position) and does not read either while the endpoint is sending a large
+            # message: the writer waits for a socket that never becomes writable.  A local disable() must still return and the
+            # endpoint must be reusable (D47)
+            sock.setsockopt(socket.SOL_SOCKET, socket.SO_RCVBUF, 4096)
+            sock.sendall(stream[:cut])
+            from secsgem.hsms import HsmsMessage, HsmsStreamFunctionHeader
+            big = HsmsMessage(HsmsStreamFunctionHeader(0x3001, 6, 11, False, 0), b"\x21" + b"\x00" * (24 * 1024 * 1024))
+            outcome = []
+            threading.Thread(target=lambda: outcome.append(ep.proto.send_message(big)), daemon=True).start()
+            time.sleep(1.0)
+            ok, _ = with_timeout(ep.proto.disable, 8.0)
+            if not ok:
+                bad["disable-returns"] = f"disable() did not return within 8 s while the peer does not read (state {ep.state()})"
+            elif outcome == [True]:
+                bad["send-reports-failure"] = "a 24 MiB message the peer never read was reported as sent"
+            elif not H.wait_until(lambda: ep.state() == "NOT_CONNECTED", 4.0):
+                bad["reports-not-connected"] = f"state {ep.state()} after disable() while the peer does not read"
+            sock.close()
+            return bad
         if ending == "burst-then-close":
             # many requests in ONE segment, then the peer closes at once: the dispatcher still has queued messages to answer when
             # the link goes down - the endpoint must finish its disconnect handling and serve the next connection (D42)
@@ -282,6 +302,8 @@ def bnd_cuts(tier, seed):
                     jobs.append((mode, selected, cut, "burst-then-close"))
                 if not selected and cut == 0:
                     jobs.append((mode, selected, cut, "connect-and-close-at-once"))
+                if selected and cut in (0, 14):
+                    jobs.append((mode, selected, cut, "peer-stops-reading"))
     n_eval = 0
     distinct = set()
     suspects = []
